@@ -35,6 +35,11 @@ TEXT = {
                  "in every member named prev*, the control's *current* value of the field they are about to overwrite (an initialiser reading control.<field>, each "
                  "field once), and their destructor hands exactly those members back: otherwise the enclosing scope continues with the nested scope's region id / "
                  "head / size and in-region requests are taken for outer transitions (the plan is not advanced)",
+    "C06.outer-test": "every request function of FullControlBaseT / FullControlT (changeTo ... schedule, with and without payload) raises "
+                      "_taskStatus.outerTransition under a condition that is, as a set of linear integer inequalities, exactly the complement of the open "
+                      "region's half-open id interval: stateId < _regionStateId  or  _regionStateId + _regionSize <= stateId (any spelling: >, >=, !, operand "
+                      "order); a wider interval lets a transition out of the region pass for an in-region one and the plan is advanced on top of it, a narrower "
+                      "one suppresses the plan for an in-region request",
     "C06.marks": "S_::deepExit calls planData.clearTaskStatus(STATE_ID) after the user's exit; clearTaskStatus clears both the success and the failure bit of the "
                  "state; clearStatuses clears successes, failures, head and sub statuses; A_::planSucceeded/planFailed defaults call control.succeed()/fail(); "
                  "TaskStatus::Result is ordered NONE < SUCCESS < FAILURE and | / |= take the maximum",
@@ -43,7 +48,7 @@ TEXT = {
                     "region), under an origin scope naming the region head",
     "C06.siblings": "the payload and void copies of updatePlan and of the PlanDataT members agree statement for statement modulo the payload arm",
 }
-MIN_INSTANCES = {"C06.defaults": 2, "C06.task-fields": 1, "C06.exec-guards": 1, "C06.routing": 3, "C06.status-accumulators": 8, "C06.own-status": 6, "C06.fresh-read": 2, "C06.scope": 3, "C06.marks": 5, "C06.siblings": 3}
+MIN_INSTANCES = {"C06.defaults": 2, "C06.task-fields": 1, "C06.exec-guards": 1, "C06.routing": 3, "C06.status-accumulators": 8, "C06.own-status": 6, "C06.fresh-read": 2, "C06.scope": 3, "C06.marks": 5, "C06.siblings": 3, "C06.outer-test": 12}
 
 
 def declare(ctx):
@@ -70,6 +75,7 @@ def check(ctx, F):
     C01.check_ortho_all(C03x._Alias(ctx, {"C01.ortho-all": "C06.routing"}), F, only=("wideUpdatePlans", "widePreUpdate", "wideUpdate", "widePostUpdate",
                                                                                    "widePreReact", "wideReact", "widePostReact"))
     check_marks(ctx, F)
+    check_outer_test(ctx, F)
     check_siblings(ctx, F)
     check_defaults(ctx, F)
     # "in order ... no earlier task of that plan": the order is the plan's link list; its maintenance is shared with C07 (same rule instances)
@@ -889,3 +895,102 @@ def final(ctx):
                 d = sorted(a ^ v, key=len)[:2]
                 ctx.violation("C06.siblings", site, "%s (%s | %s)" % (site, la, lv),
                               "the payload and void copies of %s differ beyond the payload arm: %s" % (n, [list(x)[:14] for x in d]), {})
+
+
+# ---------------------------------------------------------------------------------------------------------------------------------------
+# C06.outer-test: the condition under which a request counts as leaving the open region
+
+class _NotLinear(Exception):
+    pass
+
+
+def _lin(e):
+    """expression -> ({variable: coefficient}, constant) over the integers; parameters are named by position, members by name"""
+    e = strip(e)
+    k = e.get("k")
+    if "cv" in e and k != "asg" and isinstance(e["cv"], (int, bool)):
+        return {}, int(e["cv"])
+    if k == "lit" and isinstance(e.get("v"), (int, bool)):
+        return {}, int(e["v"])
+    if k == "var" and e.get("d") == "param":
+        return {"P%d" % e.get("pi", -1): 1}, 0
+    if k == "mem" and strip(e.get("b") or {}).get("k") == "this":
+        return {e["n"]: 1}, 0
+    if k == "paren":
+        return _lin(e["e"])
+    if k == "bin" and e.get("op") in ("+", "-"):
+        (a, ca), (b, cb) = _lin(e["lhs"]), _lin(e["rhs"])
+        sg = 1 if e["op"] == "+" else -1
+        out = dict(a)
+        for v, c in b.items():
+            out[v] = out.get(v, 0) + sg * c
+        return {v: c for v, c in out.items() if c}, ca + sg * cb
+    raise _NotLinear(_expr_txt(e))
+
+
+def _ineqs(e, neg=False):
+    """boolean expression -> list of inequalities `form <= 0` whose disjunction it is (under `neg`: of its negation); conjunctions are not in the fragment"""
+    e = strip(e)
+    k = e.get("k")
+    if k == "paren":
+        return _ineqs(e["e"], neg)
+    if k == "un" and e.get("op") == "!":
+        return _ineqs(e["e"], not neg)
+    if k == "bin" and e.get("op") == ("&&" if neg else "||"):
+        return _ineqs(e["lhs"], neg) + _ineqs(e["rhs"], neg)
+    if k == "bin" and e.get("op") in ("<", "<=", ">", ">="):
+        op, l, r = e["op"], e["lhs"], e["rhs"]
+        if neg:
+            op = {"<": ">=", "<=": ">", ">": "<=", ">=": "<"}[op]
+        if op in (">", ">="):
+            l, r, op = r, l, {">": "<", ">=": "<="}[op]
+        (a, ca), (b, cb) = _lin(l), _lin(r)
+        out = dict(a)
+        for v, c in b.items():
+            out[v] = out.get(v, 0) - c
+        c0 = ca - cb + (1 if op == "<" else 0)              # integers: l < r  <=>  l - r + 1 <= 0
+        return [(tuple(sorted((v, c) for v, c in out.items() if c)), c0)]
+    raise _NotLinear(_expr_txt(e))
+
+
+_OUTER_WANT = sorted([((("P0", 1), ("_regionStateId", -1)), 1), ((("P0", -1), ("_regionSize", 1), ("_regionStateId", 1)), 0)])
+
+
+def _writes_outer(n):
+    for x in walk(n):
+        if x.get("k") == "asg":
+            l = strip(x.get("lhs") or {})
+            if l.get("k") == "mem" and l.get("n") == "outerTransition":
+                return True
+    return False
+
+
+def check_outer_test(ctx, F):
+    seen = False
+    for cls in ("FullControlBaseT", "FullControlT"):
+        for fid, b in insts(F, cls):
+            if not b.get("body") or not _writes_outer(b["body"]) or b["name"] in ("updatePlan",):
+                continue
+            ps = b.get("params", [])
+            site = "%s%s::%s/%d" % (cls, "<" + F.spec(b["tid"]) + ">" if F.spec(b["tid"]) else "", b["name"], len(ps))
+            conds = []
+            for x in walk(b["body"]):
+                if x.get("k") == "if" and _writes_outer(x.get("t") or x.get("then") or {}) and not any(
+                        y.get("k") == "if" and y is not x and _writes_outer(y) for y in walk(x.get("t") or x.get("then") or {})):
+                    conds.append(x["c"])
+            seen = True
+            ctx.instance("C06.outer-test", site, {"function": site, "loc": F.floc(fid), "conditions": [_expr_txt(strip(c)) for c in conds]})
+            if len(conds) != 1:
+                raise AnalysisBroken("C06.outer-test: %s writes outerTransition under %d conditions, expected one `if`" % (site, len(conds)))
+            try:
+                got = sorted(_ineqs(conds[0]))
+            except _NotLinear as ex:
+                raise AnalysisBroken("C06.outer-test: %s: the outer-transition condition is outside the linear-comparison fragment (%s)" % (site, ex))
+            if got != _OUTER_WANT:
+                ctx.violation("C06.outer-test", site, "%s (%s)" % (site, F.floc(fid)),
+                              "the request raises outerTransition under `%s`, which is not the complement of the open region's id interval "
+                              "[_regionStateId, _regionStateId + _regionSize): as inequalities (<= 0) %s, expected %s - a request to a state at the "
+                              "boundary is classified wrongly and the plan is advanced over (or suppressed by) it" % (
+                                  _expr_txt(strip(conds[0])), got, _OUTER_WANT), {})
+    if not seen:
+        raise AnalysisBroken("C06.outer-test: no request function writes _taskStatus.outerTransition")
